@@ -2,6 +2,7 @@
 from harness.props import _heap as H
 
 PID = "C01"
+TRANSLATE = ["EqAlias.v"]    # translator tie: alias_tracker.py regenerated, refinement of Model/Heap's registry re-proved
 PRELUDE = H.PRELUDE
 FAILING = H.FAILING
 SHARD = 60
